@@ -83,9 +83,16 @@ func gv12(w *World, r *Report) {
 	})
 	// parameter proposals: every option must parse
 	P := "p0.Tx.Payload.(*types.TrxPayloadProposal)#0"
-	pg := w.FindGuards(fn, func(c string) bool {
-		return strings.HasPrefix(c, "(json.Unmarshal("+P+".Options[") && strings.HasSuffix(c, ", new(types.GovParams)) != nil)")
-	})
+	var pg []*Guard
+	for _, g := range w.GuardsDeep(fn, 2) {
+		// in ValidateTrx or in the handler it dispatches to (which takes the same context)
+		for _, c := range []string{g.Cond, g.CondI} {
+			if strings.HasPrefix(c, "(json.Unmarshal("+P+".Options[") && strings.HasSuffix(c, ", new(types.GovParams)) != nil)") {
+				pg = append(pg, g)
+				break
+			}
+		}
+	}
 	okParse := len(pg) == 1 && w.condCanonHolds(pg[0].If.Block(), "("+P+".OptType == 257)", 1)
 	r.Check(okParse, "Gv-1", "ValidateTrx:proposal:options-parse", "every option of a parameter proposal must parse as governance parameters", "options of a parameter proposal are no longer parsed at validation", fnSite(w, fn))
 
@@ -130,14 +137,30 @@ func gv3(w *World, r *Report) {
 	ep := needFn(r, "Gv-3", w, fref{pkgGov, "GovCtrler", "execProposing"})
 	if ep != nil {
 		v := "p0.StakeHandler.Validators()#0[(phi((φ + 1)|-1) + 1)]"
-		a := w.findStore(ep, "new(proposal.Voter).Addr", v+".Address")
-		p := w.findStore(ep, "new(proposal.Voter).Power", v+".Power")
-		c := w.findStore(ep, "new(proposal.Voter).Choice", "-1")
+		// the snapshot may be taken in execProposing or in a helper it hands the validators to
+		a, _ := w.findStoreDeep(ep, "new(proposal.Voter).Addr", v+".Address")
+		p, _ := w.findStoreDeep(ep, "new(proposal.Voter).Power", v+".Power")
+		c, _ := w.findStoreDeep(ep, "new(proposal.Voter).Choice", "-1")
 		okMap := false
-		for _, b := range ep.Blocks {
-			for _, in := range b.Instrs {
-				if mu, isM := in.(*ssa.MapUpdate); isM && w.Canon(mu.Key) == v+".Address.String()" {
-					okMap = true
+		var snapFn *ssa.Function // the helper that builds and returns the voter map, if any
+		for _, fn := range w.withModuleCallees(ep, 2) {
+			for _, b := range fn.Blocks {
+				for _, in := range b.Instrs {
+					mu, isM := in.(*ssa.MapUpdate)
+					if !isM {
+						continue
+					}
+					if w.inCallerTerms(ep, fn, func() bool { return w.Canon(mu.Key) == v+".Address.String()" }) {
+						okMap = true
+						if fn != ep {
+							snapFn = fn
+							for _, b2 := range fn.Blocks {
+								if rt, isR := lastInstr(b2).(*ssa.Return); isR && (len(rt.Results) != 1 || w.Canon(rt.Results[0]) != "make(map[string]*proposal.Voter)") {
+									snapFn = nil
+								}
+							}
+						}
+					}
 				}
 			}
 		}
@@ -152,6 +175,12 @@ func gv3(w *World, r *Report) {
 			ar := np.Common().Args
 			want := []string{"p0.TxHash", P + ".OptType", P + ".StartVotingHeight", P + ".VotingPeriodBlocks", "p0.StakeHandler.Validators()#1", P + ".ApplyingHeight", "make(map[string]*proposal.Voter)", P + ".Options"}
 			for i, wv := range want {
+				if i < len(ar) && i == 6 && snapFn != nil {
+					// the map the snapshot helper built from the current validators
+					if sc, isC := ar[i].(*ssa.Call); isC && sc.Common().StaticCallee() == snapFn {
+						continue
+					}
+				}
 				if i >= len(ar) || w.Canon(ar[i]) != wv {
 					ok = false
 				}
